@@ -303,10 +303,87 @@ def r18_4(repo: Repo) -> RuleResult:
     return rr
 
 
-RULES = [r18_1, r18_2, r18_3, r18_4]
+_FLOAT_DTYPES = {"numpy.float32", "numpy.float64", "numpy.double", "numpy.single", "float"}
+_ALLOC = {"numpy.zeros", "numpy.empty", "numpy.ones", "numpy.full"}
+
+
+def _param_sources(f: Func, e: ast.AST, params: Set[str]) -> Set[str]:
+    """Parameters a value may be computed from (flow-insensitive closure over every assignment to the locals it names)."""
+    defs: Dict[str, List[ast.AST]] = {}
+    for n in walk_no_nested(f.node):
+        if isinstance(n, ast.Assign):
+            for t in n.targets:
+                if isinstance(t, ast.Name):
+                    defs.setdefault(t.id, []).append(n.value)
+        elif isinstance(n, ast.AugAssign) and isinstance(n.target, ast.Name):
+            defs.setdefault(n.target.id, []).append(n.value)
+    out: Set[str] = set()
+    seen: Set[str] = set()
+    work = [e]
+    while work:
+        x = work.pop()
+        for nm in ast.walk(x):
+            if isinstance(nm, ast.Name):
+                if nm.id in params:
+                    out.add(nm.id)
+                elif nm.id in defs and nm.id not in seen:
+                    seen.add(nm.id)
+                    work.extend(defs[nm.id])
+    return out
+
+
+def r18_5(repo: Repo) -> RuleResult:
+    """A value buffer of the sparse helpers must be able to hold what is stored in it.  A literal floating dtype can;
+    a dtype borrowed from one operand can hold only that operand's values - a sum or product with the other operand
+    stored into it is truncated when the borrowed dtype is an integer (raw counts against a normalised row)."""
+    from .common import expand_locals, kw
+
+    rr = RuleResult("R18.5", "value buffers of the sparse helpers have a floating dtype, or a dtype borrowed from the only operand stored in them", floor=4)
+    m = repo.module(DIST)
+    for f in m.all_funcs:
+        if not f.is_njit:
+            continue
+        params = set(f.params)
+        for n in walk_no_nested(f.node):
+            if not (isinstance(n, ast.Assign) and len(n.targets) == 1 and isinstance(n.targets[0], ast.Name) and isinstance(n.value, ast.Call)
+                    and repo.canonical(f.module, n.value.func) in _ALLOC):
+                continue
+            buf = n.targets[0].id
+            srcs: Set[str] = set()
+            n_stores = 0
+            for st in walk_no_nested(f.node):
+                tgt = st.targets[0] if isinstance(st, ast.Assign) and len(st.targets) == 1 else (st.target if isinstance(st, ast.AugAssign) else None)
+                if isinstance(tgt, ast.Subscript) and norm(tgt.value) == buf:
+                    n_stores += 1
+                    srcs |= _param_sources(f, st.value, params)
+            if not srcs:
+                continue  # not a buffer of operand values
+            d = kw(n.value, "dtype")
+            if d is None and len(n.value.args) >= 2:
+                d = n.value.args[1]
+            construct = "%s = %s" % (buf, short(n.value, 60))
+            if d is None:
+                rr.ok(f, construct, "default dtype (float64)", n.lineno)
+            elif repo.canonical(f.module, d) in _FLOAT_DTYPES or (isinstance(d, ast.Constant) and str(d.value).startswith("float")):
+                rr.ok(f, construct, "literal floating dtype; %d store(s) of values from %s" % (n_stores, sorted(srcs)), n.lineno)
+            elif isinstance(d, ast.Attribute) and d.attr == "dtype" and isinstance(d.value, ast.Name) and d.value.id in params:
+                if srcs <= {d.value.id}:
+                    rr.ok(f, construct, "dtype of `%s`, the only operand stored in it" % d.value.id, n.lineno)
+                else:
+                    rr.bad(f, construct,
+                           "the buffer takes the dtype of `%s` but receives values computed from %s: when `%s` is an integer array (raw "
+                           "counts) and the other operand is floating, sums / products are truncated on the store and the result "
+                           "depends on the argument order" % (d.value.id, sorted(srcs), d.value.id), n.lineno)
+            else:
+                raise AnalysisError("R18.5: dtype `%s` of value buffer %s in %s not classified" % (norm(d), buf, f.key))
+    return rr
+
+
+RULES = [r18_1, r18_2, r18_3, r18_4, r18_5]
 CLAIM = (
     "R18.1 every sqrt(1 - q) in distances.py is clamped or dominated (CFG edge dominance) by a comparison excluding q > 1; "
     "R18.2 kind check (position vs element) on every store into the merged index array of sparse_sum / sparse_mul; "
-    "R18.3 dense and sparse Hellinger / total-variation handle the same zero-mass cases with the same constants; R18.4 the five dense distances are syntactically invariant under exchanging their arguments (statement multisets modulo commutativity and the sign of differences under abs / squares)."
+    "R18.3 dense and sparse Hellinger / total-variation handle the same zero-mass cases with the same constants; R18.4 the five dense distances are syntactically invariant under exchanging their arguments (statement multisets modulo commutativity and the sign of differences under abs / squares); "
+    "R18.5 every value buffer of the sparse helpers has a literal floating dtype or the dtype of the only operand stored in it."
 )
 NOT_DECIDED = "symmetry beyond the syntactic invariance of R18.4, the triangle inequality, vanishing on proportional inputs and closeness of sparse and dense values - numerical statements."
